@@ -460,3 +460,438 @@ Proof.
   - eexists _, _, _. split; [reflexivity|]. simpl. rewrite aget_aset_same. split; [reflexivity|].
     simpl. split; [exact Hnot|]. split; [apply (zremove_in _ _ _ Hcur)|]. right. exists expected. reflexivity.
 Qed.
+
+(* C10 forced_state_published (every state): abandoning a command publishes exactly one forced event: one entry
+   in the local handling (displayed state becomes the failure state when the local instance takes it, then
+   both sequencers are told, i.e. the sequence moves on) and one publication to the other instances *)
+Theorem forced_state_published : forall a p target et fs reason s push outs s',
+  step_force a p target et fs reason s = Ok ((push, outs), s') ->
+  outs = [OForced a p fs reason target] /\
+  ((push = [COnEvent KStart a p local_id; COnEvent KStop a p local_id; CEmit (OPub a p fs true)] /\
+    exists pr', get_proc s' a p = Some pr' /\ sp_displayed pr' = fs)
+   \/ (push = [CEmit (OPub a p fs false)] /\ s' = s)).
+Proof.
+  intros a p target et fs reason s push outs s' H. unfold step_force in H.
+  apply mbind_ok in H. destruct H as (s0 & s1 & H0 & H). unfold mget in H0. inversion H0; subst s0 s1; clear H0.
+  destruct (match aget local_id (s_insts s) with Some ins => inst_accepts ins | None => false end);
+    [|unfold ret in H; inversion H; subst; split; [reflexivity|right; auto]].
+  destruct (get_proc s a p) as [pr|] eqn:Ep; [|unfold ret in H; inversion H; subst; split; [reflexivity|right; auto]].
+  destruct (force_state (sp_st pr) (match target with Some i => i | None => 0 end) fs et) as [p' forced] eqn:Ef.
+  destruct forced; [|unfold ret in H; inversion H; subst; split; [reflexivity|right; auto]].
+  apply mbind_ok in H. destruct H as (u & s1 & H0 & H). unfold ret in H. inversion H; subst; clear H.
+  split; [reflexivity|]. left. split; [reflexivity|].
+  (* the process table after put_sproc *)
+  unfold put_sproc in H0. apply mbind_ok in H0. destruct H0 as (ap & s2 & Ha & H0).
+  unfold get_app in Ha. apply lift_opt_ok in Ha. destruct Ha as [Ha ->].
+  unfold mmod in H0. inversion H0; subst s'; clear H0.
+  unfold force_state in Ef.
+  destruct (match aget (match target with Some i => i | None => 0 end) (p_infos (sp_st pr)) with
+            | Some inf => i_event_time inf <=? et | None => true end); inversion Ef; subst p'; clear Ef.
+  eexists. unfold get_proc. simpl. rewrite aget_aset_same.
+  split.
+  - destruct (app_update (app_set_procs ap (aset p (set_sp_st pr _ (sp_stop0 pr)) (sa_procs ap)))) eqn:Eu.
+    unfold app_update in Eu. inversion Eu; subst. simpl. rewrite aget_aset_same. reflexivity.
+  - reflexivity.
+Qed.
+
+(* C10 lost_target (every job, every state): after on_instances_invalidation no current command targets a lost
+   instance *)
+Lemma inval_current_spec : forall s lost cids j failed j' failed',
+  inval_current s lost cids j failed = (j', failed') -> NoDup (j_current j) ->
+  NoDup (j_current j') /\
+  (forall x, In x (j_current j') -> In x (j_current j)) /\
+  (forall x c i, In x cids -> In x (j_current j') -> aget x (s_cmds s) = Some c -> c_ident c = Some i ->
+                 zmem i lost = false).
+Proof.
+  intros s lost. induction cids as [|cid r IH]; intros j failed j' failed' H Hnd; simpl in H.
+  - inversion H; subst. repeat split; auto. intros x c i [].
+  - destruct (aget cid (s_cmds s)) as [c|] eqn:Ec.
+    + destruct (match c_ident c with Some i => zmem i lost | None => false end) eqn:El.
+      * (* removed *)
+        destruct (zremove cid (j_current j)) as [cur|] eqn:Er.
+        -- destruct (zremove_nodup _ _ _ Er Hnd) as [Hnd1 Hnot].
+           set (j1 := set_job_fields j (j_planned j) cur (j_stop_request j)) in *.
+           set (j2 := match get_proc s (c_app c) (c_proc c) with
+                      | Some pr => process_failure j1 (sp_rules pr) | None => j1 end) in *.
+           assert (Hcur2 : j_current j2 = cur).
+           { unfold j2. destruct (get_proc s (c_app c) (c_proc c)); [|reflexivity].
+             unfold process_failure. destruct (j_kind j1); [|reflexivity].
+             destruct (pr_required (sp_rules s0)); [|reflexivity].
+             destruct (Z.eqb (pr_sfs (sp_rules s0)) gen_StartingFailureStrategies_ABORT); [reflexivity|].
+             destruct (Z.eqb (pr_sfs (sp_rules s0)) gen_StartingFailureStrategies_STOP); reflexivity. }
+           apply IH in H; [|rewrite Hcur2; exact Hnd1]. destruct H as (Hn & Hsub & Hl).
+           split; [exact Hn|]. split.
+           ++ intros x Hx. apply Hsub in Hx. rewrite Hcur2 in Hx. apply (zremove_in _ _ _ Er). exact Hx.
+           ++ intros x c0 i [->|Hx] Hin Hc0 Hi; [|eapply Hl; eauto].
+              exfalso. apply Hnot. apply Hsub in Hin. rewrite Hcur2 in Hin. exact Hin.
+        -- (* the command was not in the list: list.remove would raise; the model keeps the list *)
+           set (j1 := set_job_fields j (j_planned j) (j_current j) (j_stop_request j)) in *.
+           set (j2 := match get_proc s (c_app c) (c_proc c) with
+                      | Some pr => process_failure j1 (sp_rules pr) | None => j1 end) in *.
+           assert (Hcur2 : j_current j2 = j_current j).
+           { unfold j2. destruct (get_proc s (c_app c) (c_proc c)); [|reflexivity].
+             unfold process_failure. destruct (j_kind j1); [|reflexivity].
+             destruct (pr_required (sp_rules s0)); [|reflexivity].
+             destruct (Z.eqb (pr_sfs (sp_rules s0)) gen_StartingFailureStrategies_ABORT); [reflexivity|].
+             destruct (Z.eqb (pr_sfs (sp_rules s0)) gen_StartingFailureStrategies_STOP); reflexivity. }
+           apply IH in H; [|rewrite Hcur2; exact Hnd]. destruct H as (Hn & Hsub & Hl).
+           split; [exact Hn|]. split.
+           ++ intros x Hx. apply Hsub in Hx. rewrite Hcur2 in Hx. exact Hx.
+           ++ intros x c0 i [->|Hx] Hin Hc0 Hi; [|eapply Hl; eauto].
+              exfalso. apply Hsub in Hin. rewrite Hcur2 in Hin.
+              destruct (zremove_present _ _ Hin) as [l' Hl']. congruence.
+      * apply IH in H; [|exact Hnd]. destruct H as (Hn & Hsub & Hl).
+        split; [exact Hn|]. split; [exact Hsub|].
+        intros x c0 i [->|Hx] Hin Hc0 Hi; [|eapply Hl; eauto].
+        rewrite Ec in Hc0. inversion Hc0; subst c0. rewrite Hi in El. exact El.
+    + apply IH in H; [|exact Hnd]. destruct H as (Hn & Hsub & Hl).
+      split; [exact Hn|]. split; [exact Hsub|].
+      intros x c0 i [->|Hx] Hin Hc0 Hi; [congruence|eapply Hl; eauto].
+Qed.
+
+Theorem lost_target : forall s lost j failed j' failed',
+  inval_job s lost j failed = (j', failed') -> NoDup (j_current j) ->
+  forall cid c i, In cid (j_current j') -> aget cid (s_cmds s) = Some c -> c_ident c = Some i -> zmem i lost = false.
+Proof.
+  intros s lost j failed j' failed' H Hnd cid c i Hin Hc Hi. unfold inval_job in H.
+  destruct (inval_current s lost (j_current j) j failed) as [j1 f1] eqn:E. inversion H; subst j'; clear H.
+  destruct (inval_current_spec _ _ _ _ _ _ _ E Hnd) as (_ & Hsub & Hl).
+  eapply Hl; eauto.
+Qed.
+
+(* ------------------------------------------------------------------ C03: starting failure strategy *)
+(* process_failure: ABORT and STOP erase the plan of the job (nothing further will be requested from it), STOP
+   also raises stop_request; CONTINUE and optional processes leave the plan unchanged; current jobs always go on *)
+Theorem failure_strategy_abort_stop_continue : forall j r,
+  j_kind j = KStart ->
+  j_current (process_failure j r) = j_current j /\
+  (pr_required r = true -> pr_sfs r = gen_StartingFailureStrategies_ABORT ->
+     j_planned (process_failure j r) = [] /\ j_stop_request (process_failure j r) = j_stop_request j) /\
+  (pr_required r = true -> pr_sfs r = gen_StartingFailureStrategies_STOP ->
+     j_planned (process_failure j r) = [] /\ j_stop_request (process_failure j r) = true) /\
+  (pr_required r = false \/ pr_sfs r = gen_StartingFailureStrategies_CONTINUE -> process_failure j r = j).
+Proof.
+  intros j r Hk. unfold process_failure. rewrite Hk.
+  assert (Hd : gen_StartingFailureStrategies_ABORT <> gen_StartingFailureStrategies_STOP
+               /\ gen_StartingFailureStrategies_CONTINUE <> gen_StartingFailureStrategies_ABORT
+               /\ gen_StartingFailureStrategies_CONTINUE <> gen_StartingFailureStrategies_STOP)
+    by (vm_compute; repeat split; discriminate).
+  destruct Hd as (D1 & D2 & D3).
+  repeat split.
+  - destruct (pr_required r); [|reflexivity].
+    destruct (Z.eqb (pr_sfs r) gen_StartingFailureStrategies_ABORT); [reflexivity|].
+    destruct (Z.eqb (pr_sfs r) gen_StartingFailureStrategies_STOP); reflexivity.
+  - rewrite H, H0, Z.eqb_refl. reflexivity.
+  - rewrite H, H0, Z.eqb_refl. reflexivity.
+  - rewrite H, H0. destruct (Z.eqb gen_StartingFailureStrategies_STOP gen_StartingFailureStrategies_ABORT) eqn:E.
+    + apply Z.eqb_eq in E. congruence.
+    + rewrite Z.eqb_refl. reflexivity.
+  - rewrite H, H0. destruct (Z.eqb gen_StartingFailureStrategies_STOP gen_StartingFailureStrategies_ABORT) eqn:E.
+    + apply Z.eqb_eq in E. congruence.
+    + rewrite Z.eqb_refl. reflexivity.
+  - intros [H|H]; [rewrite H; reflexivity|]. rewrite H.
+    destruct (pr_required r); [|reflexivity].
+    destruct (Z.eqb gen_StartingFailureStrategies_CONTINUE gen_StartingFailureStrategies_ABORT) eqn:E1;
+      [apply Z.eqb_eq in E1; congruence|].
+    destruct (Z.eqb gen_StartingFailureStrategies_CONTINUE gen_StartingFailureStrategies_STOP) eqn:E2;
+      [apply Z.eqb_eq in E2; congruence|]. reflexivity.
+Qed.
+
+(* STOP is applied only once in-flight starts have ended: Starter.after (the only place that calls
+   Stopper.stop_application for a stop_request) is reached from Commander.next only for a job with nothing planned
+   and nothing current, and it lowers the flag (exactly one stop_application per raised flag) *)
+Theorem stop_applied_after_in_flight : forall k a jid rest s push outs s',
+  step_next_loop k ((a, jid) :: rest) s = Ok ((push, outs), s') ->
+  In (CAfter k jid) push ->
+  exists j, aget jid (s_jobs s) = Some j /\ j_planned j = [] /\ j_current j = [].
+Proof.
+  intros k a jid rest s push outs s' H Hin. unfold step_next_loop in H.
+  apply mbind_ok in H. destruct H as (j & s1 & Hj & H). apply get_job_ok in Hj. destruct Hj as [Hj ->].
+  exists j. split; [exact Hj|]. unfold job_in_progress in H.
+  destruct (j_planned j); destruct (j_current j); unfold ret in H; inversion H; subst;
+    try (split; reflexivity); destruct Hin as [Hin|[]]; discriminate.
+Qed.
+
+Theorem after_lowers_stop_request : forall jid s push outs s',
+  step_after KStart jid s = Ok ((push, outs), s') ->
+  (exists j, aget jid (s_jobs s) = Some j /\ j_stop_request j = false /\ push = [] /\ s' = s)
+  \/ (exists j j', aget jid (s_jobs s) = Some j /\ j_stop_request j = true /\ push = [CStopApp (j_app j)] /\
+                   aget jid (s_jobs s') = Some j' /\ j_stop_request j' = false).
+Proof.
+  intros jid s push outs s' H. unfold step_after in H.
+  apply mbind_ok in H. destruct H as (j & s1 & Hj & H). apply get_job_ok in Hj. destruct Hj as [Hj ->].
+  destruct (j_stop_request j) eqn:Es.
+  - apply mbind_ok in H. destruct H as (u & s1 & Hp & H). unfold ret in H. inversion H; subst; clear H.
+    right. exists j. eexists. repeat split; auto.
+    + unfold put_job, mmod in Hp. inversion Hp; subst. simpl. apply aget_aset_same.
+    + reflexivity.
+  - unfold ret in H. inversion H; subst. left. exists j. auto.
+Qed.
+
+(* ------------------------------------------------------------------ witnesses (replayed on the real classes by the
+   corpus harness/corpus/sequencer.json on every run) *)
+Definition w_insts : list (Z * Z * Z) := [(1, 3, 10); (2, 3, 10); (3, 3, 10); (4, 3, 10); (5, 3, 10); (6, 3, 10)].
+Definition w_proc (name start : Z) (required : bool) (insts : list Z) : pconf :=
+  mkPConf name (mkPRules start 0 required false 0) 1 1 insts.
+
+(* F-A: A1 (start_sequence 1) = {p1 : no resource, p2}, A2 (start_sequence 2) = {p1} *)
+Definition w_cf_a : config :=
+  mkConfig w_insts [mkAConf 1 true 1 1 0 [w_proc 1 1 false [1]; w_proc 2 1 false [2]];
+                    mkAConf 2 true 2 2 0 [w_proc 1 1 false [3]]] 1000.
+Definition w_ops_a : list top :=
+  [(OpCall CStartApps, 1001, [OPlace None; OPlace (Some 3); OPlace (Some 2)])].
+
+Definition outs_of (o : obs) : list out := match o with OOk outs _ _ _ _ _ => outs | OCrash _ => [] end.
+
+(* C03 application_order is FALSE of the faithful model: with A1 at sequence 1 and A2 at sequence 2,
+   start_applications requests A2:p1 BEFORE A1:p2, and the Starter forgets A1 (its job is deleted while its group
+   is still being processed) *)
+Theorem application_order_refuted :
+  exists cf ops,
+    map outs_of (run default_fuel (init_st cf) ops)
+      = [[OForced 1 1 FATAL (-1) None; OStart 3 2 1; OPub 1 1 FATAL true; OStart 2 1 2]]
+    /\ cf_app_start cf 1 = 1 /\ cf_app_start cf 2 = 2
+    /\ has_vio [V_app_order] (case_vios (cf, ops, run default_fuel (init_st cf) ops)) = true.
+Proof. exists w_cf_a, w_ops_a. vm_compute. repeat split; reflexivity. Qed.
+
+(* ... and C10: the orphan command A1:p2 is never checked: A2 completes, the Starter reports no job in progress
+   while A1:p2 is still starting, and no number of ticks followed by checks ever abandons it *)
+Definition w_ops_a10 : list top :=
+  w_ops_a ++ [(OpEvent 3 2 1 STARTING true 1002, 1002, []); (OpEvent 3 2 1 RUNNING true 1003, 1003, []);
+              (OpTicks [(2, 60); (3, 60)] 1004, 1004, []); (OpCheck, 1005, [])].
+Theorem job_bound_refuted :
+  exists cf ops,
+    let observed := run default_fuel (init_st cf) ops in
+    has_vio [V_bound] (case_vios (cf, ops, observed)) = true
+    /\ has_vio [V_progress] (case_vios (cf, ops, observed)) = true
+    /\ match rev observed with OOk outs starting _ _ _ _ :: _ => outs = [] /\ starting = false | _ => False end.
+Proof. exists w_cf_a, w_ops_a10. vm_compute. repeat split; reflexivity. Qed.
+
+(* F-B: restart of A1 whose p1 finds no resource: Commander.next raises KeyError *)
+Definition w_cf_b : config :=
+  mkConfig w_insts [mkAConf 1 true 1 1 0 [w_proc 1 1 false [1]; w_proc 2 1 false [5]]] 1000.
+Definition w_ops_b : list top :=
+  [(OpEvent 5 1 2 STARTING true 1001, 1001, []); (OpEvent 5 1 2 RUNNING true 1002, 1002, []);
+   (OpCall (CRestartApp 0 1), 1003, []);
+   (OpEvent 5 1 2 STOPPED true 1004, 1004, [OPlace None; OPlace (Some 5)])].
+Theorem no_internal_failure_refuted :
+  exists cf ops, last (run default_fuel (init_st cf) ops) (OCrash OtherError) = OCrash KeyError.
+Proof. exists w_cf_b, w_ops_b. vm_compute. reflexivity. Qed.
+
+(* timeout of a REQUIRED process whose strategy is ABORT: the next sequence is requested all the same
+   (ApplicationJobs.check calls fail_command but not process_failure) *)
+Definition w_cf_c : config :=
+  mkConfig w_insts [mkAConf 1 true 1 1 0 [w_proc 1 1 true [2]; w_proc 2 2 false [2]]] 1000.
+Definition w_ops_c : list top :=
+  [(OpCall (CStartApp 0 1), 1001, [OPlace (Some 2)]); (OpTicks [(2, 14)] 1002, 1002, []);
+   (OpCheck, 1003, [OPlace (Some 2)])].
+Theorem failure_strategy_on_timeout_refuted :
+  exists cf ops,
+    map outs_of (run default_fuel (init_st cf) ops)
+      = [[OStart 2 1 1]; []; [OForced 1 1 FATAL 10 (Some 2); OPub 1 1 FATAL true; OStart 2 1 2]]
+    /\ pr_required (cf_rules cf 1 1) = true /\ pr_sfs (cf_rules cf 1 1) = gen_StartingFailureStrategies_ABORT
+    /\ has_vio [V_strategy_timeout] (case_vios (cf, ops, run default_fuel (init_st cf) ops)) = true.
+Proof. exists w_cf_c, w_ops_c. vm_compute. repeat split; reflexivity. Qed.
+
+(* ------------------------------------------------------------------ satisfiability of the hypotheses *)
+(* state reached by witness C after its first operation: job 3 holds the command 1 (A1:p1 on instance 2) *)
+Definition w_state_c : st :=
+  match run_op default_fuel (init_st w_cf_c) (OpCall (CStartApp 0 1), 1001, [OPlace (Some 2)]) with
+  | Ok (s, _) => set_insts (aset 2 (mkSInst 3 14) (s_insts s)) s
+  | Crash _ => init_st w_cf_c
+  end.
+
+Example command_bound_hypotheses_hold :
+  exists c pr inf j,
+    aget 1 (s_cmds w_state_c) = Some c /\ get_proc w_state_c (c_app c) (c_proc c) = Some pr /\
+    c_ident c = Some 2 /\ aget 2 (p_infos (sp_st pr)) = Some inf /\ counter_of w_state_c 2 = Some 14 /\
+    aget 3 (s_jobs w_state_c) = Some j /\ j_current j = [1] /\ c_min c <= c_wait c /\ c_req c + c_wait c < 14 /\
+    c_kind c = KStart /\ i_state inf = STOPPED.
+Proof. vm_compute. do 4 eexists. repeat split; try reflexivity; discriminate. Qed.
+
+Example start_group_hypotheses_hold :
+  exists j push s',
+    (let s := match op_calls (OpCall (CStartApp 0 1)) (set_now_oracle 1001 [] (init_st w_cf_c)) with
+              | Ok (_, s) => s | Crash _ => init_st w_cf_c end in
+     let s1 := match step_call (CStartApp 0 1) s with Ok (_, s1) => s1 | Crash _ => s end in
+     aget 3 (s_jobs s1) = Some j /\ j_kind j = KStart /\
+     step_aj_next 3 s1 = Ok ((push, []), s') /\ In (AJGroup 3 [1]) push).
+Proof. vm_compute. do 3 eexists. repeat split; try reflexivity. left. reflexivity. Qed.
+
+(* ------------------------------------------------------------------ C03 zero_never_auto *)
+Lemma aappend_in : forall (l : alist (list Z)) k v k' names x,
+  In (k', names) (aappend k v l) -> In x names ->
+  (In (k', names) l) \/ (k' = k /\ (x = v \/ exists old, In (k, old) l /\ In x old)).
+Proof.
+  intros l k v k' names x Hin Hx. unfold aappend in Hin.
+  destruct (aget k l) as [old|] eqn:Eg.
+  - revert Eg Hin. induction l as [|[k0 v0] r IH]; intros Eg Hin; simpl in *; [discriminate|].
+    destruct (Z.eqb k k0) eqn:E.
+    + apply Z.eqb_eq in E. subst k0. inversion Eg; subst v0; clear Eg. simpl in Hin.
+      destruct Hin as [Hin|Hin].
+      * inversion Hin; subst. right. split; [reflexivity|]. apply in_app_or in Hx.
+        destruct Hx as [Hx|[->|[]]]; [right; exists old; split; [left; reflexivity|exact Hx] | left; reflexivity].
+      * left. right. exact Hin.
+    + simpl in Hin. destruct Hin as [Hin|Hin]; [left; left; exact Hin|].
+      destruct (IH Eg Hin) as [H|[H1 [H2|(o & Ho & Hxo)]]].
+      * left. right. exact H.
+      * right. auto.
+      * right. split; [exact H1|]. right. exists o. split; [right; exact Ho|exact Hxo].
+  - apply in_app_or in Hin. destruct Hin as [Hin|[Hin|[]]]; [left; exact Hin|].
+    inversion Hin; subst. right. split; [reflexivity|]. destruct Hx as [->|[]]. left. reflexivity.
+Qed.
+
+(* every process listed under key k of a sequence dictionary has rule value k *)
+Lemma seq_of_spec : forall f procs k names p,
+  In (k, names) (seq_of f procs) -> In p names -> exists pr, In (p, pr) procs /\ f (sp_rules pr) = k.
+Proof.
+  intros f procs. unfold seq_of.
+  assert (G : forall (acc : alist (list Z)) k names p,
+             (forall k' n' x, In (k', n') acc -> In x n' -> exists pr, In (x, pr) procs /\ f (sp_rules pr) = k') ->
+             forall l, incl l procs ->
+             In (k, names) (fold_left (fun acc kv => aappend (f (sp_rules (snd kv))) (fst kv) acc) l acc) ->
+             In p names -> exists pr, In (p, pr) procs /\ f (sp_rules pr) = k).
+  { intros acc k names p Hacc l. revert acc Hacc. induction l as [|[x pr] r IH]; intros acc Hacc Hincl Hin Hp; simpl in Hin.
+    - eapply Hacc; eauto.
+    - apply (IH (aappend (f (sp_rules pr)) x acc)); auto.
+      + intros k' n' y Hk Hy. destruct (aappend_in _ _ _ _ _ _ Hk Hy) as [H|[-> [->|(o & Ho & Hyo)]]].
+        * eapply Hacc; eauto.
+        * exists pr. split; [apply Hincl; left; reflexivity|reflexivity].
+        * eapply Hacc; eauto.
+      + intros z Hz. apply Hincl. right. exact Hz. }
+  intros k names p Hin Hp. apply (G [] k names p) with (l := procs); auto.
+  - intros k' n' x [].
+  - apply incl_refl.
+Qed.
+
+(* zero_never_auto, process level (any rules, any state): the start sequence handed to the Starter by
+   store_application — on every path: start_applications, start_application, restart, deferred start — only holds
+   processes whose start_sequence is strictly positive, under their own sequence number *)
+Theorem zero_never_auto_processes : forall ap k names p,
+  In (k, names) (filter (fun kv => Z.ltb 0 (fst kv)) (app_start_sequence ap)) -> In p names ->
+  0 < k /\ sa_managed ap = true /\ exists pr, In (p, pr) (sa_procs ap) /\ pr_start (sp_rules pr) = k.
+Proof.
+  intros ap k names p Hin Hp. apply filter_In in Hin. destruct Hin as [Hin Hk]. simpl in Hk. apply Z.ltb_lt in Hk.
+  unfold app_start_sequence in Hin. destruct (sa_managed ap) eqn:Em; [|contradiction].
+  split; [exact Hk|]. split; [reflexivity|]. eapply seq_of_spec; eauto.
+Qed.
+
+(* ---- frame: allocation of commands and jobs does not touch the context slice nor the two job tables *)
+Definition same_ctl (s s' : st) : Prop :=
+  s_apps s' = s_apps s /\ s_starter s' = s_starter s /\ s_stopper s' = s_stopper s /\ s_insts s' = s_insts s.
+
+Lemma same_ctl_refl : forall s, same_ctl s s.
+Proof. intros s. repeat split. Qed.
+Lemma same_ctl_trans : forall a b c, same_ctl a b -> same_ctl b c -> same_ctl a c.
+Proof. intros a b c (A1 & A2 & A3 & A4) (B1 & B2 & B3 & B4). repeat split; congruence. Qed.
+
+Lemma mmap_frame : forall A B (f : A -> M B),
+  (forall x s y s', f x s = Ok (y, s') -> same_ctl s s') ->
+  forall l s ys s', mmap f l s = Ok (ys, s') -> same_ctl s s'.
+Proof.
+  intros A B f Hf. induction l as [|x r IH]; intros s ys s' H; simpl in H.
+  - unfold ret in H. inversion H; subst. apply same_ctl_refl.
+  - apply mbind_ok in H. destruct H as (y & s1 & H1 & H). apply mbind_ok in H. destruct H as (ys' & s2 & H2 & H).
+    unfold ret in H. inversion H; subst. eapply same_ctl_trans; [eapply Hf; eauto | eapply IH; eauto].
+Qed.
+
+Lemma new_start_cmd_frame : forall a p strat ig s cid s', new_start_cmd a p strat ig s = Ok (cid, s') -> same_ctl s s'.
+Proof.
+  intros a p strat ig s cid s' H. unfold new_start_cmd in H.
+  apply mbind_ok in H. destruct H as (c0 & s1 & H1 & H). unfold fresh in H1. inversion H1; subst; clear H1.
+  apply mbind_ok in H. destruct H as (s0 & s2 & H1 & H). unfold mget in H1. inversion H1; subst; clear H1.
+  apply mbind_ok in H. destruct H as (u & s3 & H1 & H). unfold put_cmd, mmod in H1. inversion H1; subst; clear H1.
+  unfold ret in H. inversion H; subst. repeat split.
+Qed.
+
+Lemma new_job_frame : forall k a pl s jid s', new_job k a pl s = Ok (jid, s') -> same_ctl s s'.
+Proof.
+  intros k a pl s jid s' H. unfold new_job in H.
+  apply mbind_ok in H. destruct H as (c0 & s1 & H1 & H). unfold fresh in H1. inversion H1; subst; clear H1.
+  apply mbind_ok in H. destruct H as (u & s3 & H1 & H). unfold put_job, mmod in H1. inversion H1; subst; clear H1.
+  unfold ret in H. inversion H; subst. repeat split.
+Qed.
+
+Lemma store_group_frame : forall a strat (kv : Z * list Z) s y s',
+  (do cids <- mmap (fun p => new_start_cmd a p strat false) (snd kv) ;; ret (fst kv, cids)) s = Ok (y, s') ->
+  same_ctl s s'.
+Proof.
+  intros a strat kv s y s' Hy.
+  apply mbind_ok in Hy. destruct Hy as (cids & s3 & Hy1 & Hy). unfold ret in Hy. inversion Hy; subst.
+  apply (mmap_frame _ _ (fun p => new_start_cmd a p strat false)) in Hy1; [exact Hy1|].
+  intros p s4 cid s4' Hc. eapply new_start_cmd_frame; exact Hc.
+Qed.
+
+(* Starter.store_application(b): the Starter table is unchanged or receives one entry for b, at b's own sequence *)
+Lemma starter_store_frame : forall b strat s u s',
+  starter_store b strat s = Ok (u, s') ->
+  s_apps s' = s_apps s /\
+  (s_starter s' = s_starter s \/
+   exists jid ap, aget b (s_apps s) = Some ap /\ s_starter s' = plan_job (s_starter s) (sa_start ap) b jid).
+Proof.
+  intros b strat s u s' H. unfold starter_store in H.
+  apply mbind_ok in H. destruct H as (ap & s1 & H1 & H). unfold get_app in H1. apply lift_opt_ok in H1.
+  destruct H1 as [Hap ->].
+  apply mbind_ok in H. destruct H as (seqs & s2 & H1 & H).
+  assert (F1 : same_ctl s s2).
+  { eapply mmap_frame in H1; [exact H1|]. intros kv s0 y s0' Hy. eapply store_group_frame; exact Hy. }
+  destruct seqs as [|kv r].
+  - unfold ret in H. inversion H; subst. destruct F1 as (A & B & _). split; [exact A|left; exact B].
+  - apply mbind_ok in H. destruct H as (jid & s3 & H2 & H). apply new_job_frame in H2.
+    unfold mmod in H. inversion H; subst; clear H.
+    pose proof (same_ctl_trans _ _ _ F1 H2) as (A & B & _). simpl. split; [exact A|].
+    right. exists jid, ap. split; [exact Hap|]. rewrite B. reflexivity.
+Qed.
+
+Lemma aget_aset_other : forall V (l : alist V) k k' v, k <> k' -> aget k (aset k' v l) = aget k l.
+Proof.
+  induction l as [|[k0 v0] r IH]; intros k k' v Hne; simpl.
+  - destruct (Z.eqb k k') eqn:E; [apply Z.eqb_eq in E; contradiction|reflexivity].
+  - destruct (Z.eqb k' k0) eqn:E0; simpl.
+    + apply Z.eqb_eq in E0. subst k0. destruct (Z.eqb k k') eqn:E; [apply Z.eqb_eq in E; contradiction|reflexivity].
+    + destruct (Z.eqb k k0); [reflexivity|apply IH; exact Hne].
+Qed.
+
+(* planning a job for b does not change the job found for another application a *)
+Lemma get_application_job_plan_other : forall c prio a b jid,
+  a <> b -> get_application_job (plan_job c prio b jid) a = get_application_job c a.
+Proof.
+  intros c prio a b jid Hne. unfold get_application_job, plan_job. simpl.
+  destruct (aget a (cm_current c)); [reflexivity|].
+  set (m := match aget prio (cm_planned c) with Some m => m | None => [] end).
+  assert (Hm : forall a0, a0 <> b -> aget a0 (aset b jid m) = aget a0 m) by (intros; apply aget_aset_other; assumption).
+  assert (Hmem : amem a (aset b jid m) = amem a m) by (unfold amem; rewrite Hm; auto).
+  unfold m in *. clear m.
+  induction (cm_planned c) as [|[k0 m0] r IH]; simpl in *.
+  - unfold amem at 1. simpl. destruct (Z.eqb a b) eqn:E; [apply Z.eqb_eq in E; contradiction|]. reflexivity.
+  - destruct (Z.eqb prio k0) eqn:E0; simpl.
+    + rewrite Hmem. destruct (amem a m0) eqn:Ea; [apply Hm; exact Hne|reflexivity].
+    + destruct (amem a m0); [reflexivity|]. apply IH; assumption.
+Qed.
+
+(* zero_never_auto, application level (any rules, any state): the store phase of Starter.start_applications
+   leaves untouched the job entry of every application whose start_sequence is not strictly positive *)
+Theorem zero_never_auto_applications : forall a apps s ys s',
+  (forall ap', In (a, ap') apps -> sa_start ap' <= 0) ->
+  mmap (fun kv : Z * sapp => let ap := snd kv in
+          if Z.ltb 0 (sa_start ap) && (app_never_started ap || sa_major ap || sa_minor ap)
+          then starter_store (fst kv) None else ret tt) apps s = Ok (ys, s') ->
+  (forall b ap, In (b, ap) apps -> aget b (s_apps s) = Some ap \/ b <> a) ->
+  get_application_job (s_starter s') a = get_application_job (s_starter s) a.
+Proof.
+  intros a. induction apps as [|[b ap] r IH]; intros s ys s' Hz H Hcons; simpl in H.
+  - unfold ret in H. inversion H; subst. reflexivity.
+  - apply mbind_ok in H. destruct H as (y & s1 & H1 & H). apply mbind_ok in H. destruct H as (ys' & s2 & H2 & H).
+    unfold ret in H. inversion H; subst s2 ys; clear H. simpl in H1.
+    assert (Hstep : get_application_job (s_starter s1) a = get_application_job (s_starter s) a /\ s_apps s1 = s_apps s).
+    { destruct (Z.ltb 0 (sa_start ap) && (app_never_started ap || sa_major ap || sa_minor ap)) eqn:Eg.
+      - apply andb_prop in Eg. destruct Eg as [Eg _]. apply Z.ltb_lt in Eg.
+        destruct (starter_store_frame _ _ _ _ _ H1) as [Ha [Hs|(jid & ap0 & Hap0 & Hs)]].
+        + rewrite Hs. auto.
+        + rewrite Hs. split; [|exact Ha]. apply get_application_job_plan_other.
+          intro Heq. subst b. specialize (Hz ap (or_introl eq_refl)). lia.
+      - unfold ret in H1. inversion H1; subst. auto. }
+    destruct Hstep as [Hj Ha]. rewrite <- Hj. apply (IH s1 ys' s'); auto.
+    + intros ap' Hin. apply Hz. right. exact Hin.
+    + intros b0 ap0 Hin. rewrite Ha. apply Hcons. right. exact Hin.
+Qed.
